@@ -200,7 +200,24 @@ class TInner(Task):
         _log("execute", self)
 
 
-CLASSES = {c.__name__: c for c in (Leaf, Leaf2, LeafTwin, Node, DataCfg, LW, T, TOut, Wrap, TInner)}
+class TPass(Task):
+    """Returns one of its own parameters, marked as depending on the task"""
+
+    __xpmid__ = "vx.tpass"
+    v: Param[int] = 0
+    cfg: Param[Config]
+
+    def task_outputs(self, dep):
+        return dep(self.cfg)
+
+    def __post_init__(self):
+        _log("post_init", self)
+
+    def execute(self):
+        _log("execute", self)
+
+
+CLASSES = {c.__name__: c for c in (Leaf, Leaf2, LeafTwin, Node, DataCfg, LW, T, TOut, Wrap, TInner, TPass)}
 ENUMS = {"Color": Color, "Shape": Shape}
 
 # --- the harness's own description -----------------------------------------------------
@@ -311,6 +328,13 @@ SPEC = {
         "task": False,
         "lw": False,
         "params": {"inner": ("p", CFG, None, True), "w": ("p", "int", 0, False)},
+    },
+    "TPass": {
+        "id": "vx.tpass",
+        "task": True,
+        "lw": True,
+        "output": "param",
+        "params": {"v": ("p", "int", 0, False), "cfg": ("p", "cfg:plain", None, True)},
     },
     "TInner": {
         "id": "vx.tinner",
